@@ -274,6 +274,7 @@ pub fn build_package(opts: PackageInputs) -> Result<CoreUnit, CompilationError> 
         dep_units.push(unit);
     }
 
+    let declared_names = hir::declared_item_names(&files);
     let (tast, exports, hir_interface, diagnostics) =
         typecheck_single_package(&opts.package, files, &deps_interfaces, deps_envs);
     if diagnostics.has_errors() {
@@ -283,6 +284,7 @@ pub fn build_package(opts: PackageInputs) -> Result<CoreUnit, CompilationError> 
     let interface = InterfaceUnit::new(opts.package.clone(), exports, hir_interface, dep_hashes);
 
     let gensym = Gensym::new();
+    gensym.reserve(declared_names);
     let mut env = GlobalTypeEnv::new();
     for dep in dep_units.iter() {
         dep.exports.apply_to(&mut env);
@@ -399,6 +401,12 @@ pub fn link_cores(cores: Vec<CoreUnit>) -> Result<LinkOutput, CompilationError> 
     }
 
     let gensym = Gensym::new();
+    // the functions and types of Main keep the names they were written with
+    gensym.reserve(linked.toplevels.iter().map(|f| f.name.clone()));
+    gensym.reserve(genv.structs().keys().map(|name| name.0.clone()));
+    gensym.reserve(genv.enums().iter().flat_map(|(name, def)| {
+        std::iter::once(name.0.clone()).chain(def.variants.iter().map(|(variant, _)| variant.0.clone()))
+    }));
     let (mono, monoenv, unbounded) = mono::mono_with_diagnostics(genv.clone(), linked.clone());
     if !unbounded.is_empty() {
         return Err(compile_error(format!(
